@@ -83,13 +83,24 @@ def run(chk, repo, tier):
     FQ12 = it0.eval_global(m, "FQ12")
     mc = it0.class_attr(FQ12, "FQ12_MODULUS_COEFFS")
     x = TowerSym([Poly.var(f"c{i}", p) for i in range(12)], mc, p, FQ12)
+    from ..ecalg import alg_paths, AlgState
+    from ..poly import Rat
     it = Interp(w, class_hooks=[tower_ctor_hook])
-    res = it.call_func(f, [x], {})
     wantx = TowerSym([0] * 12, mc, p, FQ12)
     for i in range(12):
         wantx = wantx.v_binop("add", TowerSym(want[i], mc, p, FQ12).v_binop("mul", FieldSym(Poly.var(f"c{i}")), False, it), False, it)
-    chk.ob("C12.R2", f.qualname, "Σ_{i<12} exptable[i]·c_i  (= x^p because c_i^p = c_i)", isinstance(res, TowerSym) and res.equals(wantx),
-           "" if isinstance(res, TowerSym) and res.equals(wantx) else f"got {res!r}"[:300], f.where)
+    eps = alg_paths(w, lambda it2: it2.call_func(f, [x], {}), AlgState(), class_hooks=[tower_ctor_hook])
+    badp = []
+    for pth in eps:
+        res = pth.value
+        if pth.outcome != "return" or not isinstance(res, TowerSym):
+            badp.append(f"path {pth.branch_lines()}: {pth.outcome} {res!r}"[:200])
+            continue
+        diff = res.v_binop("sub", wantx, False, it)
+        if not all(pth.alg.is_zero(Rat(c)) is True for c in diff.c):
+            badp.append(f"path {' '.join(pth.branch_lines()) or '(straight line)'}: result differs from Σ exptable[i]·c_i")
+    chk.ob("C12.R2", f.qualname, "Σ_{i<12} exptable[i]·c_i  (= x^p because c_i^p = c_i) on every path", not badp and len(eps) >= 1,
+           "; ".join(badp[:2]) or f"{len(eps)} path(s)", f.where)
     # ---------------------------------------------------------------- R3
     for mod in (REF_BN, REF_BLS):
         f = repo.func(f"{mod}.linefunc")
